@@ -11,6 +11,12 @@ type PropSpec struct {
 }
 
 var propSpecs = map[string]*PropSpec{
+	"C25": {
+		Patterns:    []string{"./..."},
+		Level:       "proof",
+		Explanation: "auth.ValidatePassword returns true iff the user exists, the password matches the stored credential in its format (bcrypt / braced plaintext when enabled / SHA-256), and the user may log on; the migration write stores a bcrypt hash of the accepted password",
+		TrustedBase: []string{"bcrypt.CompareHashAndPassword / GenerateFromPassword agree (bcryptOK)", "the user store returns the stored record (userIOService is an interface; the stores themselves are C30/C31)"},
+	},
 	"C27": {
 		Patterns: []string{"./..."},
 		Level:    "proof",
